@@ -10,6 +10,8 @@ def value_of(name, a):
         return [len(value_of("tf", a)), a]
     if name == "th":
         return value_of("tf", a)[:5] + value_of("tf", a + 1)[:5]
+    if name == "tw":
+        return sum(len(value_of("tf", x)) for x in range(20 + a, 20 + a + WIDE))
     raise KeyError(name)
 
 
@@ -34,7 +36,17 @@ def th(a):
     return r[0][:5] + r[1][:5]
 
 
-FNS = {"tf": tf, "tg": tg, "th": th}
+WIDE = 140
+
+
+@m.memento_function(cluster="vt", version="1")
+def tw(a):
+    """a long body: many distinct invocations happen while this one is in progress"""
+    log("Body", "tw", a)
+    return sum(len(x) for x in tf.map_over_range(a=range(20 + a, 20 + a + WIDE)).values())
+
+
+FNS = {"tf": tf, "tg": tg, "th": th, "tw": tw}
 
 
 def needed_keys(call):
@@ -46,4 +58,6 @@ def needed_keys(call):
         return [("tg", a), ("tf", a)]
     if name == "th":
         return [("th", a), ("tf", a), ("tf", a + 1)]
+    if name == "tw":
+        return [("tw", a)] + [("tf", x) for x in range(20 + a, 20 + a + WIDE)]
     raise KeyError(name)
